@@ -142,7 +142,9 @@ func runValidators(val interface{}, validators []validatorTag) error {
 func tryRecursiveValidate(val reflect.Value, opts *options, validators []validatorTag) error {
 	var curr interface{}
 	if val.IsValid() {
-		curr = val.Interface()
+		// validate the value pointed to, like for values read from the
+		// configuration. A nil pointer is passed as is.
+		curr = chaseValuePointers(val).Interface()
 	}
 	if err := runValidators(curr, validators); err != nil {
 		return err
